@@ -86,11 +86,12 @@ PROPS = {
         explanation='Representation round trip proved; search structure is bounded.',
     ),
     'C07': dict(
-        v=[], k=[('tensor_store', ['c07_header_roundtrip_fields', 'c07_header_roundtrip_bytes', 'c07_header_validate_exact'])], b=['c07_snapshot'],
+        v=['C07_save'], k=[('tensor_store', ['c07_header_roundtrip_fields', 'c07_header_roundtrip_bytes', 'c07_header_validate_exact'])], b=['c07_snapshot'],
+        pairs={'C07_save': ['bounded:c07_snapshot']},
         level='other',
-        technique='Kani full-domain harnesses on SnapshotHeader raw codec and validate',
-        claim='snapshot header codec is bijective on all 20-byte arrays; validate accepts exactly (V3 magic, current version)',
-        explanation='Header codec proved; store round trips bounded.',
+        technique='Verus: the v3 snapshot writer save_v3_with_compression extracted and proved against a ghost file system (the target path changes only by the final rename, which installs the whole header ++ payload image; every error exit keeps the previous snapshot; no other file is touched); Kani full-domain harnesses on SnapshotHeader raw codec and validate; bounded native checks of whole-store round trips through every format, interrupted saves, write failures and re-snapshots',
+        claim='process-crash atomicity of the v3 writer proved for every router and every failure point between file-system calls (Verus; fsync/OS-crash durability not modelled); snapshot header codec is bijective on all 20-byte arrays and validate accepts exactly (V3 magic, current version) (Kani); BOUNDED: view equality after save/load for every format over the enumerated stores',
+        explanation='Writer atomicity and header codec proved; store round trips bounded; quantising writer (save_snapshot_compressed) bounded only.',
     ),
     'C03': dict(
         v=['C03_coord'], k=[], b=['c03_2pc', 'c03_force'],
